@@ -515,74 +515,80 @@ func checkC16(p *Prog, r *Result, tier string) {
 	{
 		why := "no cursor loop found"
 		var at ast.Node = SC.Decl
-		ast.Inspect(SC.Body, func(n ast.Node) bool {
-			fs, ok := n.(*ast.ForStmt)
-			if !ok || fs.Init == nil || fs.Post == nil {
-				return true
+		// in Scan itself or in the function of the package it starts as the walker (`go l.scan(prefix, ch, exit)`)
+		for _, owner := range p.withLocalCallees(SC, 2) {
+			if owner.Body == nil {
+				continue
 			}
-			initS, ok1 := fs.Init.(*ast.AssignStmt)
-			postS, ok2 := fs.Post.(*ast.AssignStmt)
-			if !ok1 || !ok2 || len(initS.Rhs) != 1 || len(postS.Rhs) != 1 {
-				return true
-			}
-			ic, ok1 := unparen(initS.Rhs[0]).(*ast.CallExpr)
-			pc, ok2 := unparen(postS.Rhs[0]).(*ast.CallExpr)
-			if !ok1 || !ok2 {
-				return true
-			}
-			at = fs
-			enc := p.enclosing(SC.Pkg, fs.Pos())
-			fi, fp := enc.Callee(ic), enc.Callee(pc)
-			if fi == nil || fp == nil {
-				return true
-			}
-			ni, np := fullObjName(fi), fullObjName(fp)
-			if (ni == "go.etcd.io/bbolt.(*Cursor).Seek" || ni == "go.etcd.io/bbolt.(*Cursor).First") && np == "go.etcd.io/bbolt.(*Cursor).Next" {
-				why = ""
-				// one walk: the cursor starts at the prefix parameter itself (a start key that is re-assigned means the walk
-				// is resumed, and a resume that starts AT the last key delivers it twice) and the walk is not repeated in a loop
-				if strings.HasSuffix(ni, "Seek") && len(ic.Args) == 1 {
-					if id, ok := unparen(ic.Args[0]).(*ast.Ident); !ok || SC.paramIndex(enc.objOf(id)) < 0 {
-						why = "the cursor starts at `" + exprStr(ic.Args[0]) + "`, not at the prefix parameter: the scan is resumed from a saved position, and an inclusive resume delivers the entry at every resume point twice (an event replayed twice within one recovery)"
-					}
+			ast.Inspect(owner.Body, func(n ast.Node) bool {
+				fs, ok := n.(*ast.ForStmt)
+				if !ok || fs.Init == nil || fs.Post == nil {
+					return true
 				}
-				for f := enc; f != nil && why == ""; f = f.Parent {
-					// the literal holding the walk is called from inside a loop of the enclosing function?
-					if f.Lit == nil || f.Parent == nil {
-						continue
+				initS, ok1 := fs.Init.(*ast.AssignStmt)
+				postS, ok2 := fs.Post.(*ast.AssignStmt)
+				if !ok1 || !ok2 || len(initS.Rhs) != 1 || len(postS.Rhs) != 1 {
+					return true
+				}
+				ic, ok1 := unparen(initS.Rhs[0]).(*ast.CallExpr)
+				pc, ok2 := unparen(postS.Rhs[0]).(*ast.CallExpr)
+				if !ok1 || !ok2 {
+					return true
+				}
+				at = fs
+				enc := p.enclosing(SC.Pkg, fs.Pos())
+				fi, fp := enc.Callee(ic), enc.Callee(pc)
+				if fi == nil || fp == nil {
+					return true
+				}
+				ni, np := fullObjName(fi), fullObjName(fp)
+				if (ni == "go.etcd.io/bbolt.(*Cursor).Seek" || ni == "go.etcd.io/bbolt.(*Cursor).First") && np == "go.etcd.io/bbolt.(*Cursor).Next" {
+					why = ""
+					// one walk: the cursor starts at the prefix parameter itself (a start key that is re-assigned means the walk
+					// is resumed, and a resume that starts AT the last key delivers it twice) and the walk is not repeated in a loop
+					if strings.HasSuffix(ni, "Seek") && len(ic.Args) == 1 {
+						if id, ok := unparen(ic.Args[0]).(*ast.Ident); !ok || topOf(enc).paramIndex(enc.objOf(id)) < 0 {
+							why = "the cursor starts at `" + exprStr(ic.Args[0]) + "`, not at the prefix parameter: the scan is resumed from a saved position, and an inclusive resume delivers the entry at every resume point twice (an event replayed twice within one recovery)"
+						}
 					}
-					ast.Inspect(f.Parent.Body, func(x ast.Node) bool {
-						var lb *ast.BlockStmt
-						switch l := x.(type) {
-						case *ast.ForStmt:
-							lb = l.Body
-						case *ast.RangeStmt:
-							lb = l.Body
+					for f := enc; f != nil && why == ""; f = f.Parent {
+						// the literal holding the walk is called from inside a loop of the enclosing function?
+						if f.Lit == nil || f.Parent == nil {
+							continue
 						}
-						if lb == nil {
-							return true
-						}
-						// a call in the loop body that mentions the variable bound to the walking literal
-						ast.Inspect(lb, func(y ast.Node) bool {
-							c, ok := y.(*ast.CallExpr)
-							if !ok {
+						ast.Inspect(f.Parent.Body, func(x ast.Node) bool {
+							var lb *ast.BlockStmt
+							switch l := x.(type) {
+							case *ast.ForStmt:
+								lb = l.Body
+							case *ast.RangeStmt:
+								lb = l.Body
+							}
+							if lb == nil {
 								return true
 							}
-							for _, a := range c.Args {
-								if t, ok2 := p.resolveFuncArg(f.Parent, a); ok2 && t == f {
-									why = "the cursor walk is started again and again inside a loop (" + p.pos(c) + "): the scan is not one walk over a consistent view"
+							// a call in the loop body that mentions the variable bound to the walking literal
+							ast.Inspect(lb, func(y ast.Node) bool {
+								c, ok := y.(*ast.CallExpr)
+								if !ok {
+									return true
 								}
-							}
+								for _, a := range c.Args {
+									if t, ok2 := p.resolveFuncArg(f.Parent, a); ok2 && t == f {
+										why = "the cursor walk is started again and again inside a loop (" + p.pos(c) + "): the scan is not one walk over a consistent view"
+									}
+								}
+								return true
+							})
 							return true
 						})
-						return true
-					})
+					}
+				} else {
+					why = fmt.Sprintf("cursor loop is %s … %s, not Seek/First … Next: entries are not produced in ascending key order", ni, np)
 				}
-			} else {
-				why = fmt.Sprintf("cursor loop is %s … %s, not Seek/First … Next: entries are not produced in ascending key order", ni, np)
-			}
-			return true
-		})
+				return true
+			})
+		}
 		r.check2(why, "S1", "wal/kv.(*Lithium).Scan / forward cursor walk from the prefix", p.pos(at), "for k, v := c.Seek(prefix); …; k, v = c.Next()")
 	}
 	_ = token.NoPos
